@@ -622,6 +622,299 @@ def _histories(draw):
     }
 
 
+# --------------------------------------------------------------------------
+# grow: an update adds modules while the process - and the scanner's
+# registry of per-task factories - lives on
+
+
+_GROW_ROOT = """
+import dawgie
+
+
+class Value(dawgie.Value):
+    def __init__(self, content=None):
+        dawgie.Value.__init__(self)
+        self.content = content
+        self._version_ = dawgie.VERSION(1, 0, 0)
+
+    def features(self):
+        return []
+
+
+class StateVector(dawgie.StateVector):
+    def __init__(self):
+        dawgie.StateVector.__init__(self)
+        self['item'] = Value(None)
+        self._version_ = dawgie.VERSION(1, 0, 0)
+
+    def name(self):
+        return 'sv'
+
+    def view(self, _caller, visitor):
+        return
+"""
+
+_GROW_TASK = """
+import dawgie
+import dawgie.base
+
+
+def analysis(
+    prefix: str, ps_hint: int = 0, runid: int = -1
+) -> dawgie.FactoryPlaceholder[dawgie.base.Analysis]:
+    raise NotImplementedError('placeholder until dawgie monkey patches me')
+
+
+def events() -> dawgie.FactoryPlaceholder[list[dawgie.EVENT]]:
+    raise NotImplementedError('placeholder until dawgie monkey patches me')
+
+
+def regress(
+    prefix: str, ps_hint: int = 0, target: str = '__none__'
+) -> dawgie.FactoryPlaceholder[dawgie.base.Regress]:
+    raise NotImplementedError('placeholder until dawgie monkey patches me')
+
+
+def task(
+    prefix: str, ps_hint: int = 0, runid: int = -1, target: str = '__none__'
+) -> dawgie.FactoryPlaceholder[dawgie.base.Task]:
+    raise NotImplementedError('placeholder until dawgie monkey patches me')
+"""
+
+_GROW_ALG = """
+import datetime
+import dawgie
+import {pkg}
+
+
+class {cls}(dawgie.Algorithm):
+    DAWGIE_SCHEDULE = [{sched}]
+
+    def __init__(self):
+        dawgie.Algorithm.__init__(self)
+        self.__sv = {pkg}.StateVector()
+        self._version_ = dawgie.VERSION(1, 0, 0)
+
+    def name(self):
+        return '{name}'
+
+    def previous(self):
+        return []
+
+    def run(self, ds, ps):
+        ds.update()
+
+    def state_vectors(self):
+        return [self.__sv]
+"""
+
+_GROW_SEQ = [0]
+
+
+def _grow_moment(m):
+    if m.get('boot'):
+        return 'dawgie.schedule(None, None, boot=True)'
+    t = 'datetime.time({}, {}, {})'.format(*m['time'])
+    if 'dow' in m:
+        return f'dawgie.schedule(None, None, dow={m["dow"]}, time={t})'
+    if 'dom' in m:
+        return f'dawgie.schedule(None, None, dom={m["dom"]}, time={t})'
+    return ('dawgie.schedule(None, None, day=datetime.date({}, {}, {}), '
+            'time={})'.format(*m['day'], t))
+
+
+def exec_grow(case):
+    """the pipeline loads (scan.for_factories -> schedule.build ->
+    schedule.periodics), an update adds new modules - to task packages that
+    exist already or to new ones -, and the pipeline loads again in the same
+    process as FSM._pipeline does, i.e. without scan.reset: the registry of
+    per-task Factories objects survives.  After every load the timer table
+    must hold exactly the declared events of every algorithm in the tree and a
+    boot event that is new must have queued its algorithm for every known
+    target.  Then the same is asked of dawgie.base.Factories directly: what
+    events() answers is a function of the classes added so far, whenever it
+    was asked before."""
+    import importlib
+    import os
+    import sys
+    import warnings
+
+    import dawgie
+    import dawgie.base
+    import dawgie.context
+    import dawgie.pl.scan
+    import dawgie.pl.schedule as sched
+    import twisted.internet.reactor as reactor
+
+    out = core.Outcome()
+    _GROW_SEQ[0] += 1
+    pkg = f'vfc20g{_GROW_SEQ[0]}'
+    root = world.fresh_dir('c20grow')
+    ae = os.path.join(root, pkg)
+
+    def put(path, text):
+        os.makedirs(os.path.dirname(path), exist_ok=True)
+        with open(path, 'wt', encoding='utf-8') as f:
+            f.write(text)
+
+    put(os.path.join(ae, '__init__.py'), _GROW_ROOT)
+    declared = {}  # tag -> moments
+    serial = [0]
+    classes = []  # (module name, class name, moments)
+
+    def add_module(m):
+        serial[0] += 1
+        k = serial[0]
+        task = f't{m["pkg"]}'
+        init = os.path.join(ae, task, '__init__.py')
+        if not os.path.exists(init):
+            put(init, _GROW_TASK)
+            out.label('new-task-package' if k > n_first else 'task-package')
+        elif k > n_first:
+            out.label('new-module-in-existing-task')
+            if m['events']:
+                out.nontrivial = True
+                out.label('scheduled-algorithm-joins-existing-task')
+        put(os.path.join(ae, task, f'mod{k}.py'), _GROW_ALG.format(
+            pkg=pkg, cls=f'Alg{k}', name=f'a{k}',
+            sched=', '.join(_grow_moment(e) for e in m['events'])))
+        classes.append((f'{pkg}.{task}.mod{k}', f'Alg{k}', m['events']))
+        if m['events']:
+            declared[f'{task}.a{k}'] = m['events']
+        return f'{task}.a{k}'
+
+    n_first = len(case['first'])
+    saved = (dawgie.context.ae_base_path, dawgie.context.ae_base_package,
+             dawgie.context.db_impl)
+    real_call_later = reactor.callLater
+    real_dt = sched.datetime
+    db = world.StubDB()
+    db.target_list = list(case['targets'])
+    sys.path.insert(0, root)
+    try:
+        db.install()
+        dawgie.context.ae_base_path = ae
+        dawgie.context.ae_base_package = pkg
+        reactor.callLater = lambda *a, **k: None
+        sched.datetime = world.fake_datetime_module(world.Clock(
+            datetime.datetime(2024, 6, 10, 12, 0, 0, tzinfo=UTC)))
+        dawgie.pl.scan.reset(pkg)
+        sched.booted.clear()
+
+        def load(where, fresh):
+            importlib.invalidate_caches()
+            try:
+                with warnings.catch_warnings():
+                    warnings.simplefilter('ignore')
+                    facs = dawgie.pl.scan.for_factories(ae, pkg)
+                    sched.build(facs, [{}, {}, {}], [{}, {}, {}, {}])
+                    sched.periodics(facs[dawgie.Factories.events])
+            except Exception as exc:  # pylint: disable=broad-except
+                out.failures.append(core.crash_failure(exc, f'grow {where}'))
+                return False
+            names = {}
+            for fe in facs[dawgie.Factories.events]:
+                for e in fe():
+                    an = '.'.join([dawgie.util.task_name(e.algref.factory),
+                                   e.algref.impl.name()])
+                    names[an] = names.get(an, 0) + 1
+            want = {t: len(ms) for t, ms in declared.items()}
+            if names != want:
+                out.fail('grow/events-factory-differs-from-declared',
+                         f'{where}: the events factories answer {names}, '
+                         f'the tree declares {want}')
+            per = {}
+            for n in sched.per:
+                per[n.tag] = len(n.get('period'))
+            if per != want:
+                out.fail('grow/timer-table-differs-from-declared',
+                         f'{where}: schedule.per holds {per} (events per '
+                         f'node), the tree declares {want}')
+            have = set(sched.tasks())
+            gone = sorted(t for t in all_tags if t not in have)
+            if gone:
+                out.fail('grow/algorithm-not-in-graph',
+                         f'{where}: {gone} missing from {sorted(have)}')
+            qd = {j.tag: set(j.get('todo')) for j in sched.que}
+            for t in fresh:
+                if any(m.get('boot') for m in declared.get(t, [])):
+                    out.label('new-boot-event')
+                    if qd.get(t) != set(case['targets']):
+                        out.fail('grow/new-boot-event-not-queued',
+                                 f'{where}: {t} queued {qd.get(t)}, known '
+                                 f'targets {case["targets"]}')
+            return True
+
+        all_tags = [add_module(m) for m in case['first']]
+        ok = load('first load', list(all_tags))
+        for ui, upd in enumerate(case['updates']):
+            if not ok or out.failures:
+                break
+            fresh = [add_module(m) for m in upd]
+            all_tags.extend(fresh)
+            ok = load(f'load after update {ui + 1}', fresh)
+        # ---- the same without the scanner
+        if ok and not out.failures:
+            mods = {mn: importlib.import_module(mn) for mn, _c, _e in classes}
+            fac = dawgie.base.Factories('t')
+            expect = 0
+            asked = False
+            added = set()
+            for op in case['algebra']:
+                if op == 'ask' or op >= len(classes):
+                    got = len(fac.events())
+                    if asked:
+                        out.label('events-asked-between-adds')
+                    asked = True
+                    if got != expect:
+                        out.fail('grow/factories-events-forgets-an-add',
+                                 f'after {case["algebra"]}: events() has '
+                                 f'{got} entries, the added classes declare '
+                                 f'{expect}')
+                        break
+                else:
+                    mn, cn, evs = classes[op]
+                    if (mn, cn) not in added:
+                        expect += len(evs)
+                        added.add((mn, cn))
+                    fac.add(getattr(mods[mn], cn))
+            if len(fac.events()) != expect:
+                out.fail('grow/factories-events-forgets-an-add',
+                         f'after {case["algebra"]}: events() has '
+                         f'{len(fac.events())} entries, expected {expect}')
+    finally:
+        reactor.callLater = real_call_later
+        sched.datetime = real_dt
+        sched.booted.clear()
+        sched.que = []
+        sched.per = []
+        dawgie.pl.scan.reset(pkg)
+        for k in [k for k in sys.modules
+                  if k == pkg or k.startswith(pkg + '.')]:
+            del sys.modules[k]
+        if root in sys.path:
+            sys.path.remove(root)
+        (dawgie.context.ae_base_path, dawgie.context.ae_base_package,
+         dawgie.context.db_impl) = saved
+        world.rm(root)
+    return out
+
+
+_grow_events = st.one_of(
+    st.just([]), st.lists(engines._moment, min_size=1, max_size=2))
+_grow_mod = st.fixed_dictionaries({'pkg': st.integers(0, 2),
+                                   'events': _grow_events})
+_grow_case = st.fixed_dictionaries({
+    'first': st.lists(_grow_mod, min_size=1, max_size=3),
+    'updates': st.lists(st.lists(_grow_mod, min_size=1, max_size=2),
+                        min_size=1, max_size=3),
+    'targets': st.lists(st.sampled_from(sim.TARGET_POOL[:3]), unique=True,
+                        min_size=1, max_size=3),
+    'algebra': st.lists(st.one_of(st.just('ask'), st.integers(0, 5)),
+                        min_size=2, max_size=8),
+})
+
+
 def parts(tier):
     q = tier == 'quick'
     return [
@@ -637,4 +930,6 @@ def parts(tier):
                   cases=1200 if q else 30000, batch=300),
         core.Part('history', exec_history, strategy=_histories(),
                   cases=320 if q else 12000, batch=40),
+        core.Part('grow', exec_grow, strategy=_grow_case,
+                  cases=240 if q else 12000, batch=40),
     ]
